@@ -90,6 +90,10 @@ def dict_wf(st, t, d):
     st.assume((z3.Length(ks) == 0) == (dom == z3.K(t.k.sort(), z3.BoolVal(False))))
     st.assume(z3.ForAll([i], z3.Implies(z3.And(0 <= i, i < z3.Length(ks)), z3.Select(dom, ks[i]))))
     st.assume(z3.ForAll([i, j], z3.Implies(z3.And(0 <= i, i < j, j < z3.Length(ks)), ks[i] != ks[j])))
+    # every key of the domain sits at some position of `keys` (position given by a Skolem function)
+    pos = z3.Function(fresh_name("keypos"), t.k.sort(), z3.IntSort())
+    x = fresh(t.k, "wk")
+    st.assume(z3.ForAll([x], z3.Implies(z3.Select(dom, x), z3.And(0 <= pos(x), pos(x) < z3.Length(ks), ks[pos(x)] == x))))
 
 
 def set_iteration_order(st, v: Val) -> Val:
